@@ -148,6 +148,26 @@ m("C06-e", "C06", "libwallet/src/internal/updater.rs", "\tbatch.save_tx_log_entr
 m("C12-f", "C12", "libwallet/src/api_impl/foreign.rs", "\t\t\tlet mut batch = w.batch(keychain_mask)?;\n\t\t\tbatch.delete_private_context(sl.id.as_bytes())?;\n\t\t\tbatch.commit()?;\n\t\t}\n\t\tsl.state = SlateState::Standard3;", "\t\t\tlet batch = w.batch(keychain_mask)?;\n\t\t\tbatch.commit()?;\n\t\t}\n\t\tsl.state = SlateState::Standard3;", "C12.R8")
 m("C16-j", "C16", "libwallet/src/internal/scan.rs", "\t\t\tkeys::set_acct_path(&mut **w, keychain_mask, &label, path)?;\n\t\t\tacct_index += 1;", "\t\t\tkeys::set_acct_path(&mut **w, keychain_mask, &label, path)?;\n\t\t\tacct_index += 0;", "C16.R5")
 
+m("C04-f", "C04", "libwallet/src/internal/selection.rs", "\t\t\tt.amount_credited += change_amount;", "\t\t\tt.amount_credited = change_amount;", "C04.R5")
+m("C04-g", "C04", "libwallet/src/internal/selection.rs", "\t\t\tamount_debited += coin.value;\n\t\t\tbatch.lock_output(&mut coin)?;", "\t\t\tamount_debited = coin.value;\n\t\t\tbatch.lock_output(&mut coin)?;", "C04.R5")
+m("C04-h", "C04", "libwallet/src/internal/selection.rs", "\tt.amount_credited = amount;\n\tt.num_outputs = 1;", "\tt.amount_credited = amount + context.fee.map(|f| f.fee()).unwrap_or(0);\n\tt.num_outputs = 1;", "C04.R5")
+
+m("C05-f", "C05", "libwallet/src/internal/tx.rs", "\tif tx_vec.len() != 1 {\n\t\treturn Err(Error::TransactionDoesntExist(tx_id_string));\n\t}\n\tlet tx = tx_vec[0].clone();\n\tmatch tx.tx_type {", "\tif tx_vec.is_empty() {\n\t\treturn Err(Error::TransactionDoesntExist(tx_id_string));\n\t}\n\tlet tx = tx_vec[0].clone();\n\tmatch tx.tx_type {", "C05.R1")
+m("C05-g", "C05", "libwallet/src/api_impl/owner.rs", "\t\treturn Err(Error::TransactionCancellationError(\n\t\t\t\"Can't contact running Grin node. Not Cancelling.\",\n\t\t));\n\t}\n\twallet_lock!(wallet_inst, w);\n\tlet parent_key_id = w.parent_key_id();\n\ttx::cancel_tx(", "\t\twarn!(\"Can't contact running Grin node. Cancelling anyway.\");\n\t}\n\twallet_lock!(wallet_inst, w);\n\tlet parent_key_id = w.parent_key_id();\n\ttx::cancel_tx(", "C05.R")
+m("C05-h", "C05", "libwallet/src/internal/tx.rs", "\t\tTxLogEntryType::TxSent | TxLogEntryType::TxReceived | TxLogEntryType::TxReverted => {}\n\t\t_ => return Err(Error::TransactionNotCancellable(tx_id_string)),", "\t\tTxLogEntryType::TxSent | TxLogEntryType::TxReceived | TxLogEntryType::TxReverted | TxLogEntryType::ConfirmedCoinbase => {}\n\t\t_ => return Err(Error::TransactionNotCancellable(tx_id_string)),", "C05.R1")
+
+# ---- probes (other mechanisms)
+m("C03-e", "C03", "impls/src/backends/lmdb.rs", "\t\tout.lock();\n\t\tself.save(out.clone())", "\t\tout.lock();\n\t\tOk(())", "C03.R")
+m("C04-i", "C04", "libwallet/src/internal/updater.rs", "\t\t\t\t\t\t\toutput.mark_reverted();\n\t\t\t\t\t\t} else {\n\t\t\t\t\t\t\toutput.mark_spent();", "\t\t\t\t\t\t\toutput.mark_reverted();\n\t\t\t\t\t\t} else {\n\t\t\t\t\t\t\toutput.mark_unspent();", "C04.R")
+m("C12-g", "C12", "impls/src/backends/lmdb.rs", "\t\t\tctx.sec_key.0[i] ^= blind_xor_key[i];\n\t\t\tctx.sec_nonce.0[i] ^= nonce_xor_key[i];", "\t\t\tctx.sec_key.0[i] ^= blind_xor_key[i];\n\t\t\tctx.sec_nonce.0[i] ^= blind_xor_key[i];", "C12.R1")
+m("C17-e", "C17", "libwallet/src/api_impl/owner.rs", "\t\tif let Some(e) = tx.ttl_cutoff_height {\n\t\t\tif tip.0 >= e {", "\t\tif let Some(e) = tx.ttl_cutoff_height {\n\t\t\tif tip.0 >= e && tx.id > 0 {", "C17.R2")
+m("C19-e", "C19", "libwallet/src/internal/updater.rs", "\t\t\t\t\tif v {\n\t\t\t\t\t\ttx_entry.tx_type != TxLogEntryType::TxReceivedCancelled\n\t\t\t\t\t\t\t&& tx_entry.tx_type != TxLogEntryType::TxSentCancelled", "\t\t\t\t\tif v {\n\t\t\t\t\t\ttx_entry.tx_type != TxLogEntryType::TxReceivedCancelled\n\t\t\t\t\t\t\t|| tx_entry.tx_type != TxLogEntryType::TxSentCancelled", "C19.R1")
+m("C18-e", "C18", "libwallet/src/internal/updater.rs", "\t\t\t\t\t\toutput.height = o.1;\n\t\t\t\t\t\toutput.mark_unspent();", "\t\t\t\t\t\toutput.height = o.1;", "C18.R4")
+m("C10-f", "C10", "libwallet/src/slatepack/types.rs", "\t\tlet rec_keys: Result<Vec<_>, _> = recipients\n", "\t\tlet rec_keys: Result<Vec<_>, _> = recipients[..1]\n", "C10.R1")
+m("C20-e", "C20", "libwallet/src/api_impl/owner.rs", "\t\twallet_lock!(wallet_inst, w);\n\t\tlet mut batch = w.batch(keychain_mask)?;\n\t\tbatch.save_last_scanned_block(info)?;", "\t\twallet_lock!(wallet_inst, w);\n\t\tlet mut batch = w.batch(keychain_mask)?;\n\t\tfor t in txs.iter() {\n\t\t\tbatch.save_tx_log_entry(t.clone(), &t.parent_key_id)?;\n\t\t}\n\t\tbatch.save_last_scanned_block(info)?;", "C20.R1")
+
+m("C18-f", "C18", "libwallet/src/internal/updater.rs", "\t\t\t\t\t\t\toutput.mark_reverted();\n\t\t\t\t\t\t} else {\n\t\t\t\t\t\t\toutput.mark_spent();", "\t\t\t\t\t\t\toutput.mark_reverted();\n\t\t\t\t\t\t} else {\n\t\t\t\t\t\t\toutput.mark_unspent();", "C18.R4")
+
 
 def for_property(prop):
     return [x for x in M if x["property"] == prop]
